@@ -150,7 +150,7 @@ def run(ctx):
     path = os.path.join(d, 'cases.txt')
     with open(path, 'w') as f:
         f.write('\n'.join(lines) + '\n')
-    impl, _ = core.run_tool(ctx.harness, ['c04', path])
+    impl, _ = core.run_tool_sharded(ctx.harness, ['c04'], path)
     impl = [l for l in impl if l]
     if len(impl) != len(lines):
         raise CheckFailure('corr', 'implementation produced %d lines for %d cases' % (len(impl), len(lines)))
@@ -200,7 +200,7 @@ def run(ctx):
         if len(ctx.violations) > 10:
             break
     if ctx.model:
-        model, _ = core.run_tool(ctx.model, ['c04', path])
+        model, _ = core.run_tool_sharded(ctx.model, ['c04'], path)
         for k, a, b in core.diff_lines(model, impl, limit=5):
             ctx.violation('model and implementation disagree', case=lines[k][:300] if k < len(lines) else None, model=a[:400], impl=b[:400])
     ctx.coverage.update({
